@@ -23,6 +23,7 @@ type EntrySpec struct {
 	ReplayNote string                     `json:"replay_note"`
 	Workers   int                         `json:"workers"`
 	ConcCap   int                         `json:"conc_cap"`
+	MaxWallS  map[string]int              `json:"max_wall_s"`
 }
 
 type UnitSpec struct {
@@ -207,7 +208,14 @@ func cmdCheck(args []string) int {
 		if w == 0 {
 			w = 16
 		}
-		res := runEntry(ld.prog, fn, runOpts{Workers: w, MaxPaths: e.MaxPaths, TimeoutMs: to, Params: params, Known: knownMode, ConcCap: e.ConcCap})
+		mw := e.MaxWallS[tier]
+		if mw == 0 {
+			mw = 300
+			if tier == "thorough" {
+				mw = 3000
+			}
+		}
+		res := runEntry(ld.prog, fn, runOpts{Workers: w, MaxPaths: e.MaxPaths, TimeoutMs: to, Params: params, Known: knownMode, ConcCap: e.ConcCap, MaxWallS: mw})
 		ex := res.ex
 		r := entryReport{Fn: e.Fn, Pkg: u.Pkg, Params: params, Pass: pass, Paths: ex.Paths - ex.Cut, Cut: ex.Cut, PathsAsserting: ex.PathsWithAsserts, Asserts: ex.Asserts, AssertQueries: ex.AssertQueries,
 			Queries: res.queries, SolverS: res.solverTime.Seconds(), WallS: res.wall.Seconds(), Steps: ex.Steps, Merges: ex.Merges, Unknown: ex.Unknown, BoundHits: ex.BoundHits,
